@@ -2,6 +2,7 @@
 from __future__ import annotations
 
 import hashlib
+import os
 import time
 from dataclasses import dataclass, field
 
@@ -122,8 +123,28 @@ class State:
     # ------------------------------------------------------------------------------------- heap
     def field(self, name):
         if name not in self.heap:
-            self.heap[name] = z3.Const(f"H0!{name}", field_sort(name))
+            h0 = z3.Const(f"H0!{name}", field_sort(name))
+            self.heap[name] = h0
+            self._closure_axiom(name, h0)
         return self.heap[name]
+
+    def _closure_axiom(self, name, h0):
+        """entry-heap well-formedness: a reference stored in the entry heap points to an object that already exists"""
+        a0 = z3.Int("alloc0")
+        r = z3.Int("cl!r")
+        if name in ("$len", "$dcnt", "$type", "$dhas", "$dpos"):
+            return
+        if name == "$items" or name == "$dord":
+            j = z3.Int("cl!j")
+            e = z3.Select(z3.Select(h0, r), j)
+            self.assume(z3.ForAll([r, j], z3.Implies(z3.And(r < a0, Val.is_VRef(e)), Val.rid(e) < a0), patterns=[e]))
+        elif name == "$dval":
+            k = z3.Const("cl!k", Val)
+            e = z3.Select(z3.Select(h0, r), k)
+            self.assume(z3.ForAll([r, k], z3.Implies(z3.And(r < a0, Val.is_VRef(e)), Val.rid(e) < a0), patterns=[e]))
+        else:
+            e = z3.Select(h0, r)
+            self.assume(z3.ForAll([r], z3.Implies(z3.And(r < a0, Val.is_VRef(e)), Val.rid(e) < a0), patterns=[e]))
 
     def read(self, fld, rid):
         return z3.Select(self.field(fld), rid)
@@ -294,6 +315,15 @@ class State:
                         wit = {"concretiser_error": repr(ex)}
                 if model is not None:
                     mtxt = _model_text(model)
+        if status != "discharged" and os.environ.get("PYVC_DUMP"):
+            d = os.environ["PYVC_DUMP"]
+            os.makedirs(d, exist_ok=True)
+            sd = z3.Solver()
+            for a in self.pc:
+                sd.add(a)
+            sd.add(z3.Not(f))
+            fn = "".join(c if c.isalnum() else "_" for c in name)[-80:] + "@" + self.path_sig()
+            open(os.path.join(d, fn + ".smt2"), "w").write(sd.to_smt2())
         dt = time.time() - t
         self.solver_time += dt
         self.obligations.append(Obligation(name, kind, status, backend, dt, self.path_sig(), detail, wit, mtxt))
